@@ -31,23 +31,17 @@ Theorem C16_c_order_is_row_major : forall d shape els, length els = prod shape -
   logical (mk_carr d shape els) = els.
 Proof. exact logical_carr. Qed.
 
-(* leaves outside the supported set are rejected (while serialising or while
-   deserialising); the guard excludes the one defect class, see _refuted below *)
-Theorem C16_unsupported_rejected : forall v, wf v = true -> supported v = false ->
-  no_empty_hasobject v = true -> roundtrip v = None.
+(* leaves outside the supported set (tuples, sets, string / void / structured arrays and
+   scalars, object arrays holding a non-bytes item, python ints outside msgpack's range)
+   are rejected, while serialising or while deserialising *)
+Theorem C16_unsupported_rejected : forall v, wf v = true -> supported v = false -> roundtrip v = None.
 Proof. exact unsupported_rejected. Qed.
 
-(* nothing ever comes back altered *)
-Theorem C16_never_altered : forall v v', wf v = true -> no_empty_hasobject v = true ->
-  roundtrip v = Some v' -> supported v = true /\ v' = canon v.
+(* nothing ever comes back altered: whenever both directions succeed the value was
+   supported and the result is its canonical form *)
+Theorem C16_never_altered : forall v v', wf v = true -> roundtrip v = Some v' ->
+  supported v = true /\ v' = canon v.
 Proof. exact never_altered. Qed.
-
-(* the code as written: an EMPTY array of a structured dtype with an object field takes
-   the bytes-object branch (dtype.hasobject), all([]) holds, and it comes back as an
-   empty plain object array *)
-Theorem C16_unsupported_rejected_refuted : exists v v',
-  wf v = true /\ supported v = false /\ roundtrip v = Some v' /\ v' <> canon v.
-Proof. exact defect_witness. Qed.
 
 (* finite sweep over the type-tag grid (15 dtypes x byte order, jax, numpy scalars,
    object arrays, other dtypes x hasobject x aligned x empty, python scalars,
@@ -82,6 +76,5 @@ Print Assumptions C16_canonical_array_same_content.
 Print Assumptions C16_c_order_is_row_major.
 Print Assumptions C16_unsupported_rejected.
 Print Assumptions C16_never_altered.
-Print Assumptions C16_unsupported_rejected_refuted.
 Print Assumptions C16_dispatch_total.
 Print Assumptions C16_sqlite_roundtrip.
